@@ -9,9 +9,9 @@ Local Open Scope Z_scope.
 
 Definition claims_of (t : tokparts) : claims := match tk_claims t with CObj c => c | _ => [] end.
 
-Definition pv_of (now : Z) (alg : option bytes) (t : tokparts) : option jerr :=
+Definition pv_of (key : bytes) (now : Z) (alg : option bytes) (t : tokparts) : option jerr :=
   match tk_claims t with
-  | CObj c => parse_verdict now alg c (tk_sig_b64 t) (tk_sig_ok t)
+  | CObj c => parse_verdict now alg c (tk_sig_b64 t) (mac_under key t)
   | _ => Some JMalformed
   end.
 
@@ -29,9 +29,9 @@ Definition num_claim (k : bytes) (c : claims) : bool := match get k c with Some 
 Definition asserted_ok (ac dc : bool) (c : claims) : bool :=
   (ac || str_claim jwt_k_aud_validate c) && (dc || num_claim jwt_k_dur_validate c).
 
-Lemma validate_core ac dc sc aud now t alg :
+Lemma validate_core ac dc sc key aud now t alg :
   tk_hdr t = HObj alg ->
-  validate_tok_g ac dc sc aud now (VTok t) =
+  validate_tok_g ac dc sc key aud now (VTok t) =
     match aud_of_g ac (claims_of t) with
     | None => Panic
     | Some a =>
@@ -39,7 +39,7 @@ Lemma validate_core ac dc sc aud now t alg :
         | GPanic => Panic
         | GErr => Err EPayload
         | GOk g =>
-            match pv_of now alg t with
+            match pv_of key now alg t with
             | Some e => Err (describe e)
             | None => if negb (lex_eqb aud a) then Err EAudience
                       else if sc && negb (tk_sig_canon t) then Err EInvalidToken
@@ -67,21 +67,21 @@ Qed.
 
 (* ---------- 1. totality: exactly when a validation panics ---------- *)
 
-Theorem panic_iff ac dc sc aud now v :
-  validate_tok_g ac dc sc aud now v = Panic <-> exists c, reaches_claims v = Some c /\ asserted_ok ac dc c = false.
+Theorem panic_iff ac dc sc key aud now v :
+  validate_tok_g ac dc sc key aud now v = Panic <-> exists c, reaches_claims v = Some c /\ asserted_ok ac dc c = false.
 Proof.
   destruct v as [|t]; cbn [reaches_claims].
   - split; [discriminate | intros (c & H & _); discriminate].
   - destruct (tk_hdr t) as [| |alg] eqn:Hh.
     + unfold validate_tok_g; rewrite Hh. split; [discriminate | intros (c & H & _); discriminate].
     + unfold validate_tok_g; rewrite Hh. split; [discriminate | intros (c & H & _); discriminate].
-    + rewrite (validate_core ac dc sc aud now t alg Hh). unfold asserted_ok.
+    + rewrite (validate_core ac dc sc key aud now t alg Hh). unfold asserted_ok.
       split.
       * intros H. exists (claims_of t). split; [reflexivity|].
         destruct (aud_of_g ac (claims_of t)) as [a|] eqn:Ea.
         -- destruct (build_gp_g dc (claims_of t) (tk_iat t)) eqn:Eg; try discriminate.
            ++ apply build_gp_panic in Eg as [-> ->]. cbn. apply andb_false_r.
-           ++ destruct (pv_of now alg t); try discriminate. destruct (negb _); try discriminate. destruct (sc && _); try discriminate. destruct (tk_pl t); discriminate.
+           ++ destruct (pv_of key now alg t); try discriminate. destruct (negb _); try discriminate. destruct (sc && _); try discriminate. destruct (tk_pl t); discriminate.
         -- apply aud_of_none in Ea as [-> ->]. reflexivity.
       * intros (c & Hc & Hf). cbn in Hc. injection Hc as <-.
         destruct (aud_of_g ac (claims_of t)) as [a|] eqn:Ea; [|reflexivity].
@@ -95,34 +95,34 @@ Proof.
 Qed.
 
 (* a header-only token with an empty claims object: the witness of F13 *)
-Definition bare_view : view := VTok (mkTok (HObj None) (CObj []) false false false None None).
+Definition bare_view : view := VTok (mkTok (HObj None) (CObj []) false None false None None).
 
-Lemma bare_view_panics ac dc sc aud now : ac && dc = false -> validate_tok_g ac dc sc aud now bare_view = Panic.
+Lemma bare_view_panics ac dc sc key aud now : ac && dc = false -> validate_tok_g ac dc sc key aud now bare_view = Panic.
 Proof.
   intros E. apply panic_iff. exists []. split; [reflexivity|].
   unfold asserted_ok, str_claim, num_claim. cbn. rewrite !orb_false_r. exact E.
 Qed.
 
 Theorem no_panic_iff_checked ac dc sc :
-  (forall aud now v, validate_tok_g ac dc sc aud now v <> Panic) <-> ac && dc = true.
+  (forall key aud now v, validate_tok_g ac dc sc key aud now v <> Panic) <-> ac && dc = true.
 Proof.
   split.
   - intros H. destruct (ac && dc) eqn:E; [reflexivity|]. exfalso.
-    exact (H [] 0 bare_view (bare_view_panics ac dc sc [] 0 E)).
-  - intros E aud now v H. apply panic_iff in H as (c & _ & Hf). apply andb_true_iff in E as [-> ->]. discriminate.
+    exact (H [] [] 0 bare_view (bare_view_panics ac dc sc [] [] 0 E)).
+  - intros E key aud now v H. apply panic_iff in H as (c & _ & Hf). apply andb_true_iff in E as [-> ->]. discriminate.
 Qed.
 
-Theorem no_panic_typed ac dc sc aud now v :
+Theorem no_panic_typed ac dc sc key aud now v :
   (forall c, reaches_claims v = Some c -> str_claim jwt_k_aud_validate c = true /\ num_claim jwt_k_dur_validate c = true) ->
-  validate_tok_g ac dc sc aud now v <> Panic.
+  validate_tok_g ac dc sc key aud now v <> Panic.
 Proof.
   intros H E. apply panic_iff in E as (c & Hc & Hf). destruct (H c Hc) as [A B].
   unfold asserted_ok in Hf. rewrite A, B, !orb_true_r in Hf. discriminate.
 Qed.
 
-Lemma app_panic_iff ac dc sc aud app now v : validate_app_g ac dc sc aud app now v = Panic <-> validate_tok_g ac dc sc aud now v = Panic.
+Lemma app_panic_iff ac dc sc key aud app now v : validate_app_g ac dc sc key aud app now v = Panic <-> validate_tok_g ac dc sc key aud now v = Panic.
 Proof.
-  unfold validate_app_g. destruct (validate_tok_g ac dc sc aud now v) as [|e|g p]; try tauto.
+  unfold validate_app_g. destruct (validate_tok_g ac dc sc key aud now v) as [|e|g p]; try tauto.
   destruct (lex_eqb _ _); split; discriminate.
 Qed.
 
@@ -177,14 +177,14 @@ Proof.
   destruct (now <? fl * ns_per_s) eqn:E; [discriminate|]. intros _. apply Z.ltb_ge. exact E.
 Qed.
 
-Inductive accepted (ac dc sc : bool) (aud : bytes) (now : Z) (v : view) (g : gp) (p : N) : Prop :=
+Inductive accepted (ac dc sc : bool) (key aud : bytes) (now : Z) (v : view) (g : gp) (p : N) : Prop :=
 | mkAccepted (t : tokparts) (alg : bytes) (c : claims)
     (acc_view : v = VTok t)
     (acc_hdr : tk_hdr t = HObj (Some alg))
     (acc_hmac : is_hmac alg = true)                      (* an HMAC method ... *)
     (acc_cl : tk_claims t = CObj c)
     (acc_b64 : tk_sig_b64 t = true)
-    (acc_sig : tk_sig_ok t = true)                       (* ... whose MAC under the validator's secret verifies *)
+    (acc_sig : tk_mac_key t = Some key)                  (* ... computed under exactly the validator's secret (the whole byte string) *)
     (acc_canon : sc = true -> tk_sig_canon t = true)     (* (if the code compares it) in its one canonical spelling *)
     (acc_aud : aud_of_g ac c = Some aud)                 (* audience = expected payload type *)
     (acc_exp : not_expired now c)                        (* lifetime not elapsed *)
@@ -192,15 +192,21 @@ Inductive accepted (ac dc sc : bool) (aud : bytes) (now : Z) (v : view) (g : gp)
     (acc_gp : build_gp_g dc c (tk_iat t) = GOk g)        (* generic payload = what the claims say *)
     (acc_pl : tk_pl t = Some p).                         (* payload = the claims decoded into the expected type *)
 
-Theorem accept_sound_g ac dc sc aud now v g p :
-  validate_tok_g ac dc sc aud now v = Ok g p -> accepted ac dc sc aud now v g p.
+Lemma mac_under_eq key t : mac_under key t = true <-> tk_mac_key t = Some key.
+Proof.
+  unfold mac_under. destruct (tk_mac_key t) as [k|]; cbn; [|split; discriminate].
+  rewrite lex_eqb_eq. split; congruence.
+Qed.
+
+Theorem accept_sound_g ac dc sc key aud now v g p :
+  validate_tok_g ac dc sc key aud now v = Ok g p -> accepted ac dc sc key aud now v g p.
 Proof.
   destruct v as [|t]; [discriminate|].
   destruct (tk_hdr t) as [| |alg] eqn:Hh; try (unfold validate_tok_g; rewrite Hh; discriminate).
-  rewrite (validate_core ac dc sc aud now t alg Hh).
+  rewrite (validate_core ac dc sc key aud now t alg Hh).
   destruct (aud_of_g ac (claims_of t)) as [a|] eqn:Ea; [|discriminate].
   destruct (build_gp_g dc (claims_of t) (tk_iat t)) as [| |g'] eqn:Eg; try discriminate.
-  destruct (pv_of now alg t) as [e|] eqn:Ep; [discriminate|].
+  destruct (pv_of key now alg t) as [e|] eqn:Ep; [discriminate|].
   destruct (lex_eqb aud a) eqn:Eq; [|discriminate]. cbn [negb].
   destruct (sc && negb (tk_sig_canon t)) eqn:Esc; [discriminate|].
   assert (Hcanon : sc = true -> tk_sig_canon t = true).
@@ -211,43 +217,53 @@ Proof.
   unfold pv_of in Ep. unfold claims_of in Ea, Eg.
   destruct (tk_claims t) as [| |c] eqn:Ec; [discriminate|discriminate|].
   apply parse_verdict_none in Ep as (al & -> & Hm & Hb & Hs & He & Hn).
-  exact (mkAccepted ac dc sc aud now (VTok t) g' p' t al c eq_refl Hh Hm Ec Hb Hs Hcanon Ea (exp_check_ok _ _ He) (nbf_check_ok _ _ Hn) Eg El).
+  exact (mkAccepted ac dc sc key aud now (VTok t) g' p' t al c eq_refl Hh Hm Ec Hb (proj1 (mac_under_eq key t) Hs) Hcanon Ea (exp_check_ok _ _ He) (nbf_check_ok _ _ Hn) Eg El).
 Qed.
 
-Theorem accept_app_sound_g ac dc sc aud app now v g p :
-  validate_app_g ac dc sc aud app now v = Ok g p ->
-  validate_tok_g ac dc sc aud now v = Ok g p /\ gp_app g = app.
+Theorem accept_app_sound_g ac dc sc key aud app now v g p :
+  validate_app_g ac dc sc key aud app now v = Ok g p ->
+  validate_tok_g ac dc sc key aud now v = Ok g p /\ gp_app g = app.
 Proof.
-  unfold validate_app_g. destruct (validate_tok_g ac dc sc aud now v) as [|e|g' p']; try discriminate.
+  unfold validate_app_g. destruct (validate_tok_g ac dc sc key aud now v) as [|e|g' p']; try discriminate.
   destruct (lex_eqb (gp_app g') app) eqn:E; [|discriminate]. intros H; injection H as <- <-.
   apply lex_eqb_eq in E. auto.
 Qed.
 
-(* without a MAC that verifies under the validator's secret nothing is accepted *)
-Definition sig_verifies (v : view) : bool := match v with VNoSplit => false | VTok t => tk_sig_ok t end.
+(* without a MAC computed under the validator's secret nothing is accepted.  The secret is the
+   whole byte string the signer was constructed with: a signature made under ANY other byte string -
+   shorter, longer, a prefix or an extension of the validator's secret, equal to it in its first 64
+   bytes - is the signature of a different secret *)
+Definition sig_verifies (key : bytes) (v : view) : bool := match v with VNoSplit => false | VTok t => mac_under key t end.
 
-Theorem unsigned_rejected_g ac dc sc aud now v :
-  sig_verifies v = false -> forall g p, validate_tok_g ac dc sc aud now v <> Ok g p.
+Theorem unsigned_rejected_g ac dc sc key aud now v :
+  sig_verifies key v = false -> forall g p, validate_tok_g ac dc sc key aud now v <> Ok g p.
 Proof.
-  intros H g p E. destruct (accept_sound_g _ _ _ _ _ _ _ _ E) as [t al c Hv _ _ _ _ Hs _ _ _ _ _ _].
-  subst v. cbn in H. congruence.
+  intros H g p E. destruct (accept_sound_g _ _ _ _ _ _ _ _ _ E) as [t al c Hv _ _ _ _ Hs _ _ _ _ _ _].
+  subst v. cbn in H. rewrite (proj2 (mac_under_eq key t) Hs) in H. discriminate.
+Qed.
+
+Theorem other_secret_rejected_g ac dc sc key aud now t k :
+  tk_mac_key t = Some k -> k <> key -> forall g p, validate_tok_g ac dc sc key aud now (VTok t) <> Ok g p.
+Proof.
+  intros Hk Hne. apply unsigned_rejected_g. cbn. unfold mac_under. rewrite Hk. cbn.
+  apply lex_eqb_neq. exact Hne.
 Qed.
 
 (* the spelling of the signature segment: compared with the canonical one iff sc *)
-Theorem accepted_canonical ac dc aud now t g p :
-  validate_tok_g ac dc true aud now (VTok t) = Ok g p -> tk_sig_canon t = true.
+Theorem accepted_canonical ac dc key aud now t g p :
+  validate_tok_g ac dc true key aud now (VTok t) = Ok g p -> tk_sig_canon t = true.
 Proof.
-  intros E. destruct (accept_sound_g _ _ _ _ _ _ _ _ E) as [t' al c Hv _ _ _ _ _ Hc _ _ _ _ _].
+  intros E. destruct (accept_sound_g _ _ _ _ _ _ _ _ _ E) as [t' al c Hv _ _ _ _ _ Hc _ _ _ _ _].
   injection Hv as <-. exact (Hc eq_refl).
 Qed.
 
 Definition respelled_view : view :=
   VTok (mkTok (HObj (Some s_HS256))
               (CObj [(jwt_k_aud_validate, JStr [80]%N); (jwt_k_dur_validate, JInt 1); (jwt_k_app_validate, JStr [97;47;98]%N)])
-              true true false None (Some 7%N)).
+              true (Some [1;2;3]%N) false None (Some 7%N)).
 
 Theorem respelled_accepted ac dc :
-  validate_tok_g ac dc false [80]%N 0 respelled_view = Ok (mkGp [97;47;98]%N 1 None) 7.
+  validate_tok_g ac dc false [1;2;3]%N [80]%N 0 respelled_view = Ok (mkGp [97;47;98]%N 1 None) 7.
 Proof. vm_compute. reflexivity. Qed.
 
 (* ---------- 3. issued tokens ---------- *)
@@ -272,8 +288,9 @@ Proof. unfold expiry, ns_per_s. pose proof (Z.mul_div_le (t0 + d) 1000000000). l
 Lemma expiry_gt t0 d : t0 + d - ns_per_s < expiry t0 d.
 Proof. unfold expiry, ns_per_s. pose proof (Z.mod_pos_bound (t0 + d) 1000000000). pose proof (Z.div_mod (t0 + d) 1000000000). lia. Qed.
 
-Definition issued_result (sk : bool) (aud app : bytes) (d t0 : Z) (dg : option N) (aud' : bytes) (now : Z) : outcome :=
-  if negb sk then Err ESignature
+(* k: secret of the issuing signer; key: secret of the validating signer *)
+Definition issued_result (k key : bytes) (aud app : bytes) (d t0 : Z) (dg : option N) (aud' : bytes) (now : Z) : outcome :=
+  if negb (lex_eqb k key) then Err ESignature
   else if now <? expiry t0 d then
     (if lex_eqb aud' aud then match dg with Some x => Ok (mkGp app d (Some t0)) x | None => Err EDecode end
      else Err EAudience)
@@ -284,43 +301,44 @@ Proof. reflexivity. Qed.
 
 Lemma issued_tok_result ac dc sc :
   keys_consistent ->
-  forall sk aud app d t0 txt pl dg aud' now,
+  forall k key aud app d t0 txt pl dg aud' now,
   count_byte 47%N app = 1%nat -> get k_nbf pl = None ->
-  validate_tok_g ac dc sc aud' now (issued_view sk aud app d t0 txt pl dg) = issued_result sk aud app d t0 dg aud' now.
+  validate_tok_g ac dc sc key aud' now (issued_view k aud app d t0 txt pl dg) = issued_result k key aud app d t0 dg aud' now.
 Proof.
-  intros K sk aud app d t0 txt pl dg aud' now Happ Hnbf.
+  intros K k key aud app d t0 txt pl dg aud' now Happ Hnbf.
   destruct (K aud app d t0 txt pl) as (Ka & Kd & Ki & Kp & Ke & Kn).
   unfold issued_view.
-  rewrite (validate_core ac dc sc aud' now (mkTok (HObj (Some s_HS256)) (CObj (issue_claims aud app d t0 txt pl)) true sk true (Some t0) dg)
+  rewrite (validate_core ac dc sc key aud' now (mkTok (HObj (Some s_HS256)) (CObj (issue_claims aud app d t0 txt pl)) true (Some k) true (Some t0) dg)
              (Some s_HS256) eq_refl).
-  unfold claims_of, pv_of. cbn [tk_claims tk_iat tk_pl tk_sig_b64 tk_sig_ok tk_sig_canon]. rewrite andb_false_r.
+  unfold claims_of, pv_of, mac_under. cbn [tk_claims tk_iat tk_pl tk_sig_b64 tk_mac_key tk_sig_canon option_eqb]. rewrite andb_false_r.
   set (c := issue_claims aud app d t0 txt pl) in *.
   assert (Ea : aud_of_g ac c = Some aud) by (unfold aud_of_g; rewrite Ka; reflexivity).
   assert (Eg : build_gp_g dc c (Some t0) = GOk (mkGp app d (Some t0))).
   { unfold build_gp_g. rewrite Kd. unfold JInt. rewrite Ki, Kp. cbn [iat_parse app_parse]. rewrite Happ. reflexivity. }
   rewrite Ea, Eg. unfold issued_result, parse_verdict. rewrite is_hmac_HS256. cbn [orb negb].
-  destruct sk; cbn [negb]; [|reflexivity].
+  destruct (lex_eqb k key); cbn [negb]; [|reflexivity].
   unfold claims_verdict, exp_check, nbf_check. rewrite Ke, Kn, Hnbf. unfold JInt. fold (expiry t0 d).
   destruct (now <? expiry t0 d); [|reflexivity].
   destruct (lex_eqb aud' aud); reflexivity.
 Qed.
 
-(* an issued token is accepted by an application-bound validator exactly when the validator has
-   the signer's secret, expects the issued payload type, is bound to the issuing application and
-   the clock is before the expiry instant; the result is then the issued generic payload and the
-   issued payload *)
+(* a token issued by a signer with secret k is accepted by an application-bound validator with
+   secret key exactly when key = k (the same byte string), the validator expects the issued payload
+   type, is bound to the issuing application and the clock is before the expiry instant; the result
+   is then the issued generic payload and the issued payload *)
 Theorem issued_accept_iff_g ac dc sc :
   keys_consistent ->
-  forall sk aud app d t0 txt pl dg aud' app' now g p,
+  forall k key aud app d t0 txt pl dg aud' app' now g p,
   count_byte 47%N app = 1%nat -> get k_nbf pl = None ->
-  (validate_app_g ac dc sc aud' app' now (issued_view sk aud app d t0 txt pl (Some dg)) = Ok g p
-   <-> sk = true /\ aud' = aud /\ app' = app /\ now < expiry t0 d /\ g = mkGp app d (Some t0) /\ p = dg).
+  (validate_app_g ac dc sc key aud' app' now (issued_view k aud app d t0 txt pl (Some dg)) = Ok g p
+   <-> key = k /\ aud' = aud /\ app' = app /\ now < expiry t0 d /\ g = mkGp app d (Some t0) /\ p = dg).
 Proof.
-  intros K sk aud app d t0 txt pl dg aud' app' now g p Happ Hnbf.
+  intros K k key aud app d t0 txt pl dg aud' app' now g p Happ Hnbf.
   unfold validate_app_g. rewrite (issued_tok_result ac dc sc K) by assumption.
   unfold issued_result.
-  destruct sk; cbn [negb].
-  2:{ split; [discriminate | intros (H & _); discriminate]. }
+  destruct (lex_eqb k key) eqn:Ek; cbn [negb].
+  2:{ apply lex_eqb_neq in Ek. split; [discriminate | intros (H & _); congruence]. }
+  apply lex_eqb_eq in Ek.
   destruct (now <? expiry t0 d) eqn:En.
   2:{ split; [discriminate | intros (_ & _ & _ & H & _)]. apply Z.ltb_ge in En. lia. }
   apply Z.ltb_lt in En.
@@ -334,16 +352,29 @@ Proof.
   - apply lex_eqb_neq in Ep. split; [discriminate | intros (_ & _ & H & _); congruence].
 Qed.
 
+(* a validator whose secret differs from the issuer's in any way - another length, one byte
+   anywhere, including beyond the minimum length - refuses the token with "signature invalid" *)
+Theorem issued_other_secret_g ac dc sc :
+  keys_consistent ->
+  forall k key aud app d t0 txt pl dg aud' now,
+  count_byte 47%N app = 1%nat -> get k_nbf pl = None -> key <> k ->
+  validate_tok_g ac dc sc key aud' now (issued_view k aud app d t0 txt pl dg) = Err ESignature.
+Proof.
+  intros K k key aud app d t0 txt pl dg aud' now Happ Hnbf Hne.
+  rewrite (issued_tok_result ac dc sc K) by assumption. unfold issued_result.
+  destruct (lex_eqb k key) eqn:E; [|reflexivity]. apply lex_eqb_eq in E. congruence.
+Qed.
+
 (* ... in particular only while its lifetime t0 + d has not elapsed (the expiry instant is the
    lifetime's end rounded down to the second: a token may die up to one second early, never late) *)
 Theorem issued_within_lifetime_g ac dc sc :
   keys_consistent ->
-  forall sk aud app d t0 txt pl dg aud' app' now g p,
+  forall k key aud app d t0 txt pl dg aud' app' now g p,
   count_byte 47%N app = 1%nat -> get k_nbf pl = None ->
-  validate_app_g ac dc sc aud' app' now (issued_view sk aud app d t0 txt pl (Some dg)) = Ok g p ->
+  validate_app_g ac dc sc key aud' app' now (issued_view k aud app d t0 txt pl (Some dg)) = Ok g p ->
   now < t0 + d.
 Proof.
-  intros K sk aud app d t0 txt pl dg aud' app' now g p Happ Hnbf H.
+  intros K k key aud app d t0 txt pl dg aud' app' now g p Happ Hnbf H.
   apply (issued_accept_iff_g ac dc sc K) in H as (_ & _ & _ & H & _); try assumption.
   pose proof (expiry_le t0 d). lia.
 Qed.
@@ -354,21 +385,21 @@ Definition str_of (v : option jval) : option bytes := match v with Some (JStr s)
 Definition floor_of (v : option jval) : option Z := match v with Some (JNum _ fl) => Some fl | _ => None end.
 
 (* what the origin recorded by the harness means for the view: strings nothing was signed in, and
-   changed issued tokens, carry no verifying MAC (unforgeability of HMAC - an assumption, and the
-   place where the accepted re-encodings of the signature segment, finding C14-SIGENC, fall out);
-   signed claims are the claims of the view; an unchanged issued token has the issued view *)
-Definition origin_consistent (t : trace) : Prop :=
+   changed issued tokens, carry no MAC verifying under the validator's secret (unforgeability of
+   HMAC - an assumption); claims signed by the harness under a secret verify under the validator's
+   secret only if it is that secret; an unchanged issued token has the issued view of its signer *)
+Definition origin_consistent (t : vtrace) : Prop :=
   match t_origin t with
-  | ORaw => sig_verifies (t_view t) = false
-  | OSigned sk aud app exp =>
-      (sig_verifies (t_view t) = true -> sk = true)
+  | ORaw => sig_verifies (t_key t) (t_view t) = false
+  | OSigned key aud app exp =>
+      (sig_verifies (t_key t) (t_view t) = true -> key = Some (t_key t))
       /\ forall tk c, t_view t = VTok tk -> tk_claims tk = CObj c ->
            aud = str_of (get jwt_k_aud_validate c) /\ app = str_of (get jwt_k_app_validate c) /\ exp = floor_of (get k_exp c)
-  | OIssued sk intact app aud t0 d dig =>
+  | OIssued k intact app aud t0 d dig =>
       if intact then
         exists txt pl dg, count_byte 47%N app = 1%nat /\ get k_nbf pl = None
-          /\ t_view t = issued_view sk aud app d t0 txt pl dg /\ (aud = t_aud t -> dg = Some dig)
-      else sig_verifies (t_view t) = false
+          /\ t_view t = issued_view k aud app d t0 txt pl dg /\ (aud = t_aud t -> dg = Some dig)
+      else sig_verifies (t_key t) (t_view t) = false
   end.
 
 Lemma gp_eqb_eq a b : gp_eqb a b = true -> a = b.
@@ -381,15 +412,15 @@ Qed.
 
 Lemma tok_ok_allowed ac dc sc t g p :
   keys_consistent -> origin_consistent t -> t_aud t <> []%N ->
-  validate_tok_g ac dc sc (t_aud t) (t_now t) (t_view t) = Ok g p ->
+  validate_tok_g ac dc sc (t_key t) (t_aud t) (t_now t) (t_view t) = Ok g p ->
   origin_allows false t = true /\ payload_matches t g p = true.
 Proof.
   intros K OC Haud H. unfold origin_consistent in OC. unfold origin_allows, payload_matches.
-  destruct (t_origin t) as [sk intact app aud t0 d dig | sk aud app exp |].
+  destruct (t_origin t) as [k intact app aud t0 d dig | k aud app exp |].
   - destruct intact.
     + destruct OC as (txt & pl & dg & Happ & Hnbf & Hv & Hdg).
       rewrite Hv, (issued_tok_result ac dc sc K) in H by assumption. unfold issued_result in H.
-      destruct sk; [|discriminate]. cbn [negb] in H.
+      destruct (lex_eqb k (t_key t)) eqn:Ek; [|discriminate]. cbn [negb] in H.
       destruct (t_now t <? expiry t0 d) eqn:En; [|discriminate].
       destruct (lex_eqb (t_aud t) aud) eqn:Ea; [|discriminate].
       apply lex_eqb_eq in Ea. destruct dg as [x|]; [|discriminate]. injection H as <- <-.
@@ -397,61 +428,69 @@ Proof.
       apply Z.ltb_lt in En. pose proof (expiry_le t0 d).
       assert (L : (t_now t <? t0 + d) = true) by (apply Z.ltb_lt; lia).
       rewrite L, <- Ea, !lex_eqb_refl, Z.eqb_refl, N.eqb_refl. cbn. rewrite Z.eqb_refl. auto.
-    + exfalso. exact (unsigned_rejected_g ac dc sc _ _ _ OC g p H).
+    + exfalso. exact (unsigned_rejected_g ac dc sc _ _ _ _ OC g p H).
   - destruct OC as [Hsk Hcl].
-    destruct (accept_sound_g _ _ _ _ _ _ _ _ H) as [tk al c Hv _ _ Hc _ Hs _ Ha He _ Hg _].
+    destruct (accept_sound_g _ _ _ _ _ _ _ _ _ H) as [tk al c Hv _ _ Hc _ Hs _ Ha He _ Hg _].
     destruct (Hcl tk c Hv Hc) as (-> & -> & ->).
-    rewrite Hv in Hsk. rewrite (Hsk Hs).
+    rewrite Hv in Hsk. cbn in Hsk. rewrite (Hsk (proj2 (mac_under_eq _ _) Hs)).
     apply build_gp_ok in Hg as (dd & fl & ti & _ & _ & Happ & _ & _).
-    rewrite Happ. cbn [str_of option_eqb]. rewrite lex_eqb_refl.
+    rewrite Happ. cbn [str_of option_eqb]. rewrite !lex_eqb_refl.
     unfold aud_of_g in Ha. unfold not_expired in He.
     destruct (get jwt_k_aud_validate c) as [[| | | s| |]|]; try (destruct ac; [injection Ha as Ha; congruence | discriminate]).
     injection Ha as ->. cbn [str_of option_eqb]. rewrite lex_eqb_refl.
     destruct (get k_exp c) as [[| |n fl'| | |]|]; cbn [floor_of]; try contradiction; cbn; auto.
     apply Z.ltb_lt in He. rewrite He. auto.
-  - exfalso. exact (unsigned_rejected_g ac dc sc _ _ _ OC g p H).
+  - exfalso. exact (unsigned_rejected_g ac dc sc _ _ _ _ OC g p H).
 Qed.
 
 Lemma allows_bound t g p :
   origin_allows false t = true -> payload_matches t g p = true -> gp_app g = t_app t -> origin_allows true t = true.
 Proof.
   unfold origin_allows, payload_matches. intros A P E.
-  destruct (t_origin t) as [sk intact app aud t0 d dig | sk aud app exp |]; [| |discriminate].
+  destruct (t_origin t) as [k intact app aud t0 d dig | k aud app exp |]; [| |discriminate].
   - cbn [negb orb] in *. rewrite andb_true_r in A. rewrite A. cbn.
     repeat (apply andb_true_iff in P as [P _]). apply lex_eqb_eq in P. rewrite <- P, E. apply lex_eqb_refl.
   - cbn [negb orb] in *. rewrite andb_true_r in A. rewrite A. cbn.
     destruct app as [a|]; cbn in P; [|discriminate]. apply lex_eqb_eq in P. subst a. cbn. rewrite E. apply lex_eqb_refl.
 Qed.
 
-(* On every trace whose recorded origin is truthful, on which model and code agree, and on which
-   the model does not panic, the property oracle holds: the oracle can only fail where the code
-   leaves the model, where the model panics (F13), or where the origin assumption breaks. *)
+(* On every validation trace whose recorded origin is truthful, on which model and code agree, and
+   on which the model does not panic, the property oracle holds: the oracle can only fail where the
+   code leaves the model, where the model panics (F13), or where the origin assumption breaks. *)
 Theorem agrees_satisfies :
   keys_consistent ->
   forall t, origin_consistent t -> t_aud t <> []%N ->
-  validate_tok (t_aud t) (t_now t) (t_view t) <> Panic ->
-  agrees t = true -> satisfies t = true.
+  validate_tok (t_key t) (t_aud t) (t_now t) (t_view t) <> Panic ->
+  agrees_v t = true -> satisfies_v t = true.
 Proof.
-  intros K t OC Haud NP A. unfold agrees in A. unfold satisfies.
+  intros K t OC Haud NP A. unfold agrees_v in A. unfold satisfies_v.
   unfold validate_tok, validate_app in *.
   set (ac := jwt_aud_assert_checked) in *. set (dc := jwt_dur_assert_checked) in *. set (sc := jwt_sig_canon_checked) in *. clearbody ac dc sc.
   apply andb_true_iff in A as [A A3]. apply andb_true_iff in A as [A1 A2].
-  assert (NP2 : validate_app_g ac dc sc (t_aud t) (t_app t) (t_now t) (t_view t) <> Panic)
+  assert (NP2 : validate_app_g ac dc sc (t_key t) (t_aud t) (t_app t) (t_now t) (t_view t) <> Panic)
     by (intros E; apply app_panic_iff in E; contradiction).
-  assert (B : forall g p, validate_app_g ac dc sc (t_aud t) (t_app t) (t_now t) (t_view t) = Ok g p ->
+  assert (B : forall g p, validate_app_g ac dc sc (t_key t) (t_aud t) (t_app t) (t_now t) (t_view t) = Ok g p ->
                           origin_allows true t = true /\ payload_matches t g p = true).
   { intros g p E. apply accept_app_sound_g in E as [E1 E2].
     destruct (tok_ok_allowed ac dc sc t g p K OC Haud E1) as [X Y]. split; [exact (allows_bound t g p X Y E2) | exact Y]. }
   apply andb_true_iff; split; [apply andb_true_iff; split|].
-  - destruct (validate_tok_g ac dc sc (t_aud t) (t_now t) (t_view t)) as [|e|g p] eqn:E; [contradiction| |];
+  - destruct (validate_tok_g ac dc sc (t_key t) (t_aud t) (t_now t) (t_view t)) as [|e|g p] eqn:E; [contradiction| |];
       destruct (t_tok t) as [|e'|g' p']; try discriminate; [reflexivity|].
     cbn in A1. apply andb_true_iff in A1 as [G P]. apply gp_eqb_eq in G. apply N.eqb_eq in P. subst g' p'.
     destruct (tok_ok_allowed ac dc sc t g p K OC Haud E) as [X Y]. cbn. rewrite X, Y. reflexivity.
-  - destruct (validate_app_g ac dc sc (t_aud t) (t_app t) (t_now t) (t_view t)) as [|e|g p] eqn:E; [contradiction| |];
+  - destruct (validate_app_g ac dc sc (t_key t) (t_aud t) (t_app t) (t_now t) (t_view t)) as [|e|g p] eqn:E; [contradiction| |];
       destruct (t_apptok t) as [|e'|g' p']; try discriminate; [reflexivity|].
     cbn in A2. apply andb_true_iff in A2 as [G P]. apply gp_eqb_eq in G. apply N.eqb_eq in P. subst g' p'.
     destruct (B g p eq_refl) as [X Y]. cbn. rewrite X, Y. reflexivity.
   - destruct (t_auth t) as [c|]; [|reflexivity]. apply N.eqb_eq in A3. subst c.
-    destruct (validate_app_g ac dc sc (t_aud t) (t_app t) (t_now t) (t_view t)) as [|e|g p] eqn:E; [contradiction|reflexivity|].
+    destruct (validate_app_g ac dc sc (t_key t) (t_aud t) (t_app t) (t_now t) (t_view t)) as [|e|g p] eqn:E; [contradiction|reflexivity|].
     cbn. destruct (B g p eq_refl) as [X _]. exact X.
+Qed.
+
+(* the secrets side: where the code agrees with the ideal-MAC model the oracle on keyed hashes holds *)
+Theorem agrees_satisfies_k t : agrees_k t = true -> satisfies_k t = true.
+Proof.
+  unfold agrees_k, satisfies_k. intros A. apply andb_true_iff in A as [_ A].
+  destruct (k_hash_eq t) as [e|]; [|reflexivity].
+  destruct (signer_constructible (k_a t) && signer_constructible (k_b t)); cbn in A; [exact A|discriminate].
 Qed.
